@@ -488,6 +488,26 @@ func suiteURL(r *Rng, n int, thorough bool, o *Out) {
 		if m := c07Verdict(u, s, pu.Query()); m != "" {
 			v.fail("C07", m)
 		}
+		if r.chance(1, 3) {
+			// the same SimpleURL handed to NewURL twice (and to the schema it was made for):
+			// the second URL is the first one
+			var su jsonapi.SimpleURL
+			var e0, e1, e2 error
+			var a, b *jsonapi.URL
+			if p0, _ := guard(func() {
+				su, e0 = jsonapi.NewSimpleURL(pu)
+				if e0 == nil {
+					a, e1 = jsonapi.NewURL(s, su)
+					b, e2 = jsonapi.NewURL(s, su)
+				}
+			}); p0 {
+				v.fail("C07", "C07 NewSimpleURL / NewURL panicked")
+			} else if e0 == nil && ((e1 == nil) != (e2 == nil) || (e1 == nil && sxURL(a) != sxURL(b))) {
+				v.fail("C07", "C07 the same SimpleURL gives two different URLs when handed to NewURL twice")
+				v.fail("C08", "C08 the URL built a second time from the same SimpleURL does not have the first one's String()")
+			}
+			o.stat("simpleurl.used-twice")
+		}
 		str := ""
 		{
 			var m string
